@@ -31,6 +31,22 @@ macro_rules! lms_set {
                         None => Ok("N".into()),
                     }
                 }
+                "sign_st" => {
+                    // like sign, and reports whether the key state (as shown by its Debug form, the only public view of it)
+                    // changed across the call
+                    let id = arg(a, 0)?;
+                    let mut rng = TapeRng::new(bytes(arg(a, 1)?)?);
+                    let msg = bytes(arg(a, 2)?)?;
+                    let e = r.$table.get_mut(id).ok_or("no such key")?;
+                    let before = format!("{:?}", e.0);
+                    let res = e.0.sign(&mut rng, &msg);
+                    let after = format!("{:?}", e.0);
+                    let st = if before == after { "SAME" } else { "CHANGED" };
+                    match res {
+                        Some(s) => Ok(format!("S {} {}", ohex(&s), st)),
+                        None => Ok(format!("N {}", st)),
+                    }
+                }
                 "verify" => {
                     let id = arg(a, 0)?;
                     let sig = bytes(arg(a, 1)?)?;
